@@ -58,6 +58,13 @@ func genC01(maxKeys, maxOps int) func(t *rapid.T) C01Case {
 		var c C01Case
 		c.Universe = kit.GenKeyUniverse(t, 2, maxKeys)
 		n := len(c.Universe)
+		// Key rotation: some universe entries reuse the *id* of an earlier entry with different material, so that an
+		// update can keep an id while changing its secret or cipher (and lists may carry one id twice).
+		for i := 1; i < n; i++ {
+			if rapid.IntRange(0, 3).Draw(t, "reuseID") == 0 {
+				c.Universe[i].ID = c.Universe[rapid.IntRange(0, i-1).Draw(t, "idOf")].ID
+			}
+		}
 		c.Initial = genIdxList(t, n, "initial", 1, n)
 		c.IPs = rapid.SliceOfNDistinct(rapid.SampledFrom(c01IPPool), 1, 5, rapid.ID[string]).Draw(t, "ips")
 		nops := rapid.IntRange(1, maxOps).Draw(t, "nops")
